@@ -1048,7 +1048,101 @@ func c07GenSorter(rng *rand.Rand) Case {
 		}
 		c.Ops = append(c.Ops, op)
 	}
+	// the DISTINCT step alone (hook VerifApplyDistinct): rows over text / number / bool / NULL / missing cells, with
+	// texts that contain the characters a hand-made row key might use as separators; a row is dropped iff it equals an
+	// earlier row column by column
+	dtexts := []string{"", "a", "b", "a|k1=b", "a|k1=", "b|k2=c", "|", "=", "k1=a", "<nil>", "1", "true", "null", "\"a\"", "a,b", "{}"}
+	for b := 0; b < 2; b++ {
+		n := 2 + rng.Intn(7)
+		nc := 2 + rng.Intn(2)
+		op := []string{"distinct", strconv.Itoa(n), strconv.Itoa(nc)}
+		for i := 0; i < nc; i++ {
+			op = append(op, hx(fmt.Sprintf("k%d", i)))
+		}
+		var prev []string
+		for r := 0; r < n; r++ {
+			var cells []string
+			if prev != nil && rng.Intn(3) == 0 {
+				cells = append([]string(nil), prev...) // a genuine duplicate
+			} else {
+				for i := 0; i < nc; i++ {
+					switch rng.Intn(9) {
+					case 0:
+						cells = append(cells, "m")
+					case 1:
+						cells = append(cells, "n")
+					case 2:
+						cells = append(cells, "i:"+strconv.Itoa(rng.Intn(3)))
+					case 3:
+						cells = append(cells, "b:"+btok(rng.Intn(2) == 0))
+					default:
+						cells = append(cells, "s:"+hx(dtexts[rng.Intn(len(dtexts))]))
+					}
+				}
+				if prev != nil && rng.Intn(3) == 0 && nc >= 2 {
+					// the neighbour that a `col=value|` key would merge with the previous row: (x|k1=y, z) ~ (x, y|k1=z)
+					cells = []string{"s:" + hx("x|k1=y"), "s:" + hx("z")}
+					prev2 := []string{"s:" + hx("x"), "s:" + hx("y|k1=z")}
+					for i := 2; i < nc; i++ {
+						cells = append(cells, "n")
+						prev2 = append(prev2, "n")
+					}
+					op = append(op, prev2...)
+					r++
+					if r >= n {
+						op[1] = strconv.Itoa(n + 1)
+					}
+				}
+			}
+			op = append(op, cells...)
+			prev = cells
+		}
+		c.Ops = append(c.Ops, op)
+	}
+	c.Stat = append(c.Stat, "distinct-step-alone")
 	return c
+}
+
+func c07ExecDistinct(op []string) [][]string {
+	n, _ := strconv.Atoi(op[1])
+	nc, _ := strconv.Atoi(op[2])
+	cols := make([]string, nc)
+	for i := range cols {
+		cols[i] = unhx(op[3+i])
+	}
+	toks := op[3+nc:]
+	if len(toks) != n*nc {
+		return [][]string{{"bad-op"}}
+	}
+	rows := make([]map[string]interface{}, n)
+	for r := range rows {
+		rows[r] = map[string]interface{}{}
+		for i, cn := range cols {
+			if v, ok := c07ParseVal(toks[r*nc+i]); ok {
+				rows[r][cn] = v
+			}
+		}
+	}
+	cfg, _, err := rsql.Parse("SELECT d, COUNT(*) AS c FROM stream GROUP BY d, CountingWindow(1)")
+	if err != nil {
+		return [][]string{{"parse-error"}}
+	}
+	cfg.Logger = logger.NewDiscardLogger()
+	st, err := stream.NewStream(*cfg)
+	if err != nil {
+		return [][]string{{"newstream-error"}}
+	}
+	defer st.Stop()
+	// identity of a kept row: its position in the input (the step returns the maps it was given)
+	pos := map[string]int{}
+	for i, r := range rows {
+		pos[fmt.Sprintf("%p", r)] = i
+	}
+	line := []string{"kept"}
+	for _, r := range stream.VerifApplyDistinct(st, rows) {
+		line = append(line, strconv.Itoa(pos[fmt.Sprintf("%p", r)]))
+	}
+	return [][]string{line}
 }
 
 func c07ExecSorter(c Case) [][][]string {
@@ -1064,6 +1158,10 @@ func c07ExecSorter(c Case) [][][]string {
 	}
 	var out [][][]string
 	for _, op := range c.Ops {
+		if op[0] == "distinct" {
+			out = append(out, c07ExecDistinct(op))
+			continue
+		}
 		if op[0] != "sort" {
 			out = append(out, [][]string{{"bad-op"}})
 			continue
